@@ -544,7 +544,8 @@ private:
             for (int k = 0; k < nsigs; k++) {
                 if (sv == SigVer::BASE) {
                     int found = find_and_delete(code, push_raw(top(-int(isig) - k)));
-                    if (found > 0 && (flags & F_CONST_SCRIPTCODE)) return Err::SIG_FINDANDDELETE;
+                    bool listed = false; for (auto& mp : mock_pairs) if (mp.first == top(-int(isig) - k)) listed = true;   // C11: a listed signature is accepted regardless of the rules for real ones
+                    if (found > 0 && (flags & F_CONST_SCRIPTCODE) && !listed) return Err::SIG_FINDANDDELETE;
                 }
             }
             bool success = true;
